@@ -86,4 +86,6 @@ def main(tier, seed):
     lem = runner.run_lemmas(('sec', 'nosec') if tier == 'thorough' else ('sec',))
     meta = dict(META)
     meta['checker_cmd'] = './check C18 %s' % tier
-    return runner.main_run('C18', tier, units(tier, seed), meta, lemma_results=lem)
+    us = units(tier, seed)
+    meta['bounds'] = list(meta['bounds']) + ['change-directed selection on this run: %s' % (SELECTION or 'no data files')]
+    return runner.main_run('C18', tier, us, meta, lemma_results=lem)
